@@ -25,6 +25,10 @@ CHECKS = {
    text="Decides panic-freedom of slicing / indexing / unwrapping / asserting on input bytes in the 15 decoder entry points and the byte-consuming callees they reach: every such operation is an obligation discharged by linear length facts from dominating tests (len < e => exit, len != c => exit, is_empty), loop-index facts of Range iteration, integer-division facts and constant-width try_into, with callees analysed in the caller's context (constant length or provable lower bound) and is_err()/is_ok() variant knowledge for unwraps. Decoders that cannot express failure are judged through all their call sites. Does not decide the allocation bound or arithmetic overflow (64-bit usize assumed). Three genuine defects (decoders that cannot reject) are recorded as known findings.",
    note=TRUST + " The linear prover (analysis/linear.py) is a sound-by-construction combination search: it only ever subtracts non-negative multiples of available facts.",
    technique="static analysis: available-facts dataflow of linear length inequalities (ABCD-style bounds-check elimination) over MIR, context-sensitive over decoder callees"),
+ "C11": dict(level="other",
+   text="Decides absence, on the call graph reachable from the three peer-driven event handlers, of explicit crash shapes whose trigger is peer-chosen by construction: a match arm on a decoded Message that inevitably panics, an unwrap of pre-handshake peer state or of a peer lookup without a dominating check (variant knowledge from is_some/is_ok/is_err tests and Some-assignments), an unwrap of the Result of a workspace function that constructs Err, and reachability of a decoder with undischarged C10 obligations. Does not decide implicit panics on runtime-bounded values, stalls, isolation of honest peers' state, message sequences or schedules. Three genuine defects are recorded as known findings; four were repaired.",
+   note=TRUST,
+   technique="static analysis: call-graph reachability from handler entry points + variant-knowledge dataflow for unwrap sites + post-dominating panic detection on enum match arms"),
  "C14": dict(level="other",
    text="Decides that the pool and its reservation index move together on every path: each site removing pooled transactions releases their inputs in utxo_map before any success exit (a loop over the removed transactions counts from its header; a retain-style closure may release inside), each inserting site reserves them, and bundle_block has no failure exit between draining the pool and returning. Necessary for 'an unspent output that no pooled transaction spends can always be spent' and for the bundling clause; does not decide pool/ledger consistency over interleavings. One genuine defect (non-atomic bundling on Block::create failure) is recorded as a known finding.",
    note=TRUST,
